@@ -310,6 +310,42 @@ message Unpacked {
 """
 
 
+def schema_wide():
+    """sizes: a message with 150 fields of mixed kinds (numbers on both sides of the 1/2-byte tag boundary), chains of twelve
+    message types nested by value and by pointer, a capturing message with every kind of field among its 63 possible numbers."""
+    s = header("wide") + "message Many {\n"
+    kinds = KINDS + ["Leaf", "repeated int32", "repeated string", "optional int64", "repeated Leaf"]
+    for i in range(150):
+        k = kinds[i % len(kinds)]
+        s += "  %s f%d = %d;\n" % (k, i, 1 + i if i < 120 else 2000 + i * 7)
+    s += "}\nmessage Leaf { sint32 v = 1; }\n"
+    for i in range(12):
+        inner = "V%d next = 2 [(pico.field).always_present = true];" % (i + 1) if i < 11 else "int32 bottom = 2;"
+        s += "message V%d { int32 x = 1; %s }\n" % (i, inner)
+    for i in range(12):
+        inner = "P%d next = 2; repeated P%d more = 3;" % (i + 1, i + 1) if i < 11 else "string bottom = 2;"
+        s += "message P%d { bool x = 1; %s }\n" % (i, inner)
+    s += """message CapAll {
+  option (pico.message).capture_unrecognized_fields = true;
+  int32 a = 1;
+  optional int32 oa = 2;
+  optional string os = 3;
+  repeated sint32 ra = 4;
+  repeated string rs = 5;
+  Leaf m = 6;
+  optional Leaf om = 7;
+  repeated Leaf rm = 8;
+  map<int32, string> mp = 9;
+  oneof k { bool kb = 10; Leaf km = 11; string ks = 12; }
+  V11 byval = 13 [(pico.field).always_present = true];
+  CapAll self = 14;
+  optional bytes ob = 62;
+  fixed64 last = 63;
+}
+"""
+    return s
+
+
 def schema_bigenum():
     """enum size boundaries (top-level with 20 values, nested with 17, negative and sparse numbers)."""
     s = header("bigenum", pico=False) + "enum Code {\n"
@@ -450,7 +486,7 @@ BOUNDARY = {
 
 def fixed_schemas():
     return {"allmaps": schema_allmaps(), "recur": schema_recur(), "presence": schema_presence(), "order": schema_order(), "casts": schema_casts(),
-            "capone": schema_capone(), "oneofap": schema_oneofap(), "nested": schema_nested(), "empty": schema_empty(), "names": schema_names(), "misc": schema_misc(), "bigenum": schema_bigenum(), "wkimp": schema_wkimp()}
+            "capone": schema_capone(), "oneofap": schema_oneofap(), "nested": schema_nested(), "empty": schema_empty(), "names": schema_names(), "misc": schema_misc(), "wide": schema_wide(), "bigenum": schema_bigenum(), "wkimp": schema_wkimp()}
 
 
 def build(schemas, tag="fresh"):
